@@ -12,6 +12,7 @@ GENERATORS = {
     'consts': ('gen_consts', ['NetConsts.v']),
     'track': ('gen_track', ['TrackTab.v']),
     'packets': ('gen_packets', ['Packets.v']),
+    'text': ('gen_text', ['TextTab.v']),
 }
 
 def write_if_changed(path, text):
